@@ -81,11 +81,11 @@ def _one(R, rng, i, dtype_opt, method, subproc):
     # reading options, identical for both pipelines: header scaling, --ignore-scaling, --input-min/max
     slope = inter = None
     rd_opts = []
-    if dt in ("uint8", "uint16") and rng.random() < 0.4:
+    if dt in ("uint8", "uint16") and rng.random() < 0.4 and not force_jpeg:
         slope, inter = rng.choice([(2.0, 0.0), (0.5, 10.0), (3.0, -1.0)])
         if rng.random() < 0.5:
             rd_opts.append("--ignore-scaling")
-    if dt in ("uint8", "uint16", "float32") and rng.random() < 0.2:
+    if dt in ("uint8", "uint16", "float32") and rng.random() < 0.2 and not force_jpeg:
         rd_opts += ["--input-min", rng.choice([0.0, 10.0]), "--input-max", rng.choice([255.0, 1000.0])]
     storage = rng.choice(["deep-gz", "flat", "flat-gz", "deep", "deep-gz", "flat", "sharded"])
     if cubic_grid:
@@ -98,8 +98,11 @@ def _one(R, rng, i, dtype_opt, method, subproc):
     pipeline.write_nifti(nii, arr, affine=affine, slope=slope, inter=inter)
 
     enc = "compressed_segmentation" if dt in ("uint32", "uint64") and rng.random() < 0.5 else None
-    if dt == "uint8" and nch in (1, 3) and dtype_opt != "segmentation" and (force_jpeg or rng.random() < 0.5):
-        enc = "jpeg"              # lossy, but deterministic: both pipelines must decode the same voxels
+    if (dt == "uint8" and nch in (1, 3) and dtype_opt != "segmentation" and slope is None and not rd_opts
+            and (force_jpeg or rng.random() < 0.5)):
+        # lossy, but deterministic: both pipelines must decode the same voxels.  (Header scaling and
+        # --input-min/max turn the data into float32, which JPEG cannot hold: plain 8-bit volumes only.)
+        enc = "jpeg"
     if dt == "uint64" and method in (None, "average") and dtype_opt != "segmentation":
         dt = "uint32"             # uint64 averaging is the C07 finding; kept out of C19
         arr = (arr % (2 ** 32)).astype(dt)
